@@ -104,10 +104,10 @@ func (pr *PatternRouter) RouteHTTP(r *http.Request) (grpcadapter.ClientConn, HTT
 			verbIdx = len(lastPathComponent) - len(patternVerb) - 1
 		}
 
-		// path segments consisting only of verbs aren't allowed
+		// path segments consisting only of verbs aren't allowed, so this pattern doesn't match,
+		// but the rest of them can still match such a segment as a regular path component
 		if verbIdx == 0 {
-			routeErr = status.Error(codes.NotFound, http.StatusText(http.StatusNotFound))
-			return false
+			return true
 		}
 
 		matchComponents = matchComponents[:len(pathComponents)]
